@@ -8,7 +8,11 @@
 //!   * K atomic book changes with ids 1..K, one depth update per id (U = u = id), delivered over the
 //!     socket in order (a gap-free in-order delivery), optionally starting late at id 2;
 //!   * the subscription is confirmed before any update is sent (as Binance does);
-//!   * the REST snapshot point S in 0..=K (the snapshot may lag or lead the socket).
+//!   * the REST snapshot point S in 0..=K (the snapshot may lag or lead the socket);
+//!   * (second hardening round) optionally a SECOND instrument subscribed on the same connection - "across several
+//!     instruments on one connection" - with its own book evolution, its own start (id 1 or 2) and its own
+//!     snapshot point; the updates of the two instruments alternate on the socket. One local book per instrument;
+//!     every instrument must get its snapshot; the consumer's connection ends at the first sequence error.
 //! The consumer applies the events the stream yields, in order, exactly like `OrderBookL2Manager`
 //! does (snapshot replaces, update upserts). Oracle (the statement): once the consumer has applied the
 //! snapshot, its book equals the venue's book as of the sequence it reports unless the stream has
@@ -53,24 +57,36 @@ use std::{
 
 const K: u64 = 4;
 
-/// change i: (is_bid, price, amount); change 4 overwrites the level of change 1, change 3 deletes 2's.
-fn change(i: u64) -> (bool, u32, u32) {
-    match i {
-        1 => (false, 101, 1),
-        2 => (true, 99, 2),
-        3 => (true, 99, 0),
-        4 => (false, 101, 4),
+const MARKETS: [&str; 2] = ["BTCUSDT", "ETHUSDT"];
+const BASES: [&str; 2] = ["btc", "eth"];
+
+/// change i of instrument `inst`: (is_bid, price, amount). Instrument 0: change 4 overwrites the level of change 1,
+/// change 3 deletes 2's. Instrument 1 (the second subscription of the two-instrument scripts) moves other prices, so
+/// that a level applied to the wrong book or a snapshot paired with the wrong instrument shows.
+fn change(inst: usize, i: u64) -> (bool, u32, u32) {
+    match (inst, i) {
+        (0, 1) => (false, 101, 1),
+        (0, 2) => (true, 99, 2),
+        (0, 3) => (true, 99, 0),
+        (0, 4) => (false, 101, 4),
+        (1, 1) => (true, 1999, 5),
+        (1, 2) => (false, 2001, 6),
+        (1, 3) => (true, 1999, 7),
+        (1, 4) => (false, 2001, 0),
         _ => unreachable!(),
     }
 }
 
-/// venue book as of id n: (bids, asks) price -> amount
-fn venue_book(n: u64) -> (BTreeMap<u32, u32>, BTreeMap<u32, u32>) {
+/// venue book of instrument `inst` as of id n: (bids, asks) price -> amount
+fn venue_book(inst: usize, n: u64) -> (BTreeMap<u32, u32>, BTreeMap<u32, u32>) {
     // base levels present since before id 1 so the snapshot is never empty
-    let mut bids = BTreeMap::from([(90u32, 9u32)]);
-    let mut asks = BTreeMap::from([(110u32, 9u32)]);
+    let (mut bids, mut asks) = if inst == 0 {
+        (BTreeMap::from([(90u32, 9u32)]), BTreeMap::from([(110u32, 9u32)]))
+    } else {
+        (BTreeMap::from([(1900u32, 3u32)]), BTreeMap::from([(2100u32, 3u32)]))
+    };
     for i in 1..=n {
-        let (is_bid, p, a) = change(i);
+        let (is_bid, p, a) = change(inst, i);
         let side = if is_bid { &mut bids } else { &mut asks };
         if a == 0 {
             side.remove(&p);
@@ -85,8 +101,8 @@ fn levels_json(m: &BTreeMap<u32, u32>) -> Vec<Value> {
     m.iter().map(|(p, a)| json!([format!("{p}.00"), format!("{a}.000")])).collect()
 }
 
-fn snapshot_json(futures: bool, s: u64) -> String {
-    let (b, a) = venue_book(s);
+fn snapshot_json_of(futures: bool, inst: usize, s: u64) -> String {
+    let (b, a) = venue_book(inst, s);
     let mut v = json!({"lastUpdateId": s, "bids": levels_json(&b), "asks": levels_json(&a)});
     if futures {
         v["E"] = json!(1_589_436_922_972u64);
@@ -94,20 +110,27 @@ fn snapshot_json(futures: bool, s: u64) -> String {
     }
     v.to_string()
 }
+fn snapshot_json(futures: bool, s: u64) -> String {
+    snapshot_json_of(futures, 0, s)
+}
 
-fn update_json(futures: bool, i: u64) -> String {
-    let (is_bid, p, a) = change(i);
+fn update_json_of(futures: bool, inst: usize, i: u64) -> String {
+    let (is_bid, p, a) = change(inst, i);
     let lvl = json!([[format!("{p}.00"), format!("{a}.000")]]);
     let (b, a_) = if is_bid { (lvl, json!([])) } else { (json!([]), lvl) };
-    let mut v = json!({"e": "depthUpdate", "E": 1_671_656_397_761u64 + i, "s": "BTCUSDT", "U": i, "u": i, "b": b, "a": a_});
+    let mut v = json!({"e": "depthUpdate", "E": 1_671_656_397_761u64 + i, "s": MARKETS[inst], "U": i, "u": i, "b": b, "a": a_});
     if futures {
         v["T"] = json!(1_671_656_397_760u64 + i);
         v["pu"] = json!(i - 1);
     }
     v.to_string()
 }
+fn update_json(futures: bool, i: u64) -> String {
+    update_json_of(futures, 0, i)
+}
 
-static SNAPSHOT: Mutex<Option<String>> = Mutex::new(None);
+/// the scripted REST answers of the current execution: market name -> snapshot payload
+static SNAPSHOT: Mutex<BTreeMap<String, String>> = Mutex::new(BTreeMap::new());
 
 struct ScriptFetcher;
 
@@ -121,11 +144,13 @@ macro_rules! script_fetcher {
                 Instrument: InstrumentData,
                 Subscription<$Exchange, Instrument, OrderBooksL2>: barter_data::Identifier<barter_data::exchange::binance::market::BinanceMarket>,
             {
-                let text = SNAPSHOT.lock().unwrap().clone().expect("snapshot script set");
+                let texts = SNAPSHOT.lock().unwrap().clone();
                 let events = subscriptions
                     .iter()
                     .map(|sub| {
-                        let snap: BinanceOrderBookL2Snapshot = serde_json::from_str(&text).expect("snapshot json");
+                        let market: barter_data::exchange::binance::market::BinanceMarket = barter_data::Identifier::id(sub);
+                        let text = texts.get(market.0.as_str()).expect("snapshot script set for the subscribed market");
+                        let snap: BinanceOrderBookL2Snapshot = serde_json::from_str(text).expect("snapshot json");
                         MarketEvent::from(($id, sub.instrument.key().clone(), snap))
                     })
                     .collect::<Vec<_>>();
@@ -139,9 +164,9 @@ script_fetcher!(BinanceFuturesUsd, ExchangeId::BinanceFuturesUsd);
 
 /// The consumer side of one execution: the real `init` for one rule set, then every item the stream yields.
 macro_rules! client_events {
-    ($Exchange:ty, $Transformer:ident, $kind:expr) => {
+    ($Exchange:ty, $Transformer:ident, $kind:expr, $instruments:expr) => {
         async {
-            let subs = vec![Subscription::new(<$Exchange>::default(), MarketDataInstrument::from(("btc", "usdt", $kind)), OrderBooksL2)];
+            let subs: Vec<_> = BASES[..$instruments].iter().map(|base| Subscription::new(<$Exchange>::default(), MarketDataInstrument::from((*base, "usdt", $kind)), OrderBooksL2)).collect();
             let mut stream = tokio::time::timeout(
                 Duration::from_secs(20),
                 <ExchangeWsStream<$Transformer<MarketDataInstrument>> as MarketStream<$Exchange, MarketDataInstrument, OrderBooksL2>>::init::<ScriptFetcher>(&subs),
@@ -168,6 +193,9 @@ struct Script {
     first: u64,
     pre: u64,
     snapshot: u64,
+    /// a second instrument subscribed on the same connection: (id of its first delivered update, its snapshot
+    /// point); its updates alternate with the first instrument's on the socket
+    second: Option<(u64, u64)>,
 }
 
 fn book_as_maps(book: &OrderBook) -> (BTreeMap<Decimal, Decimal>, BTreeMap<Decimal, Decimal>) {
@@ -178,7 +206,10 @@ fn book_as_maps(book: &OrderBook) -> (BTreeMap<Decimal, Decimal>, BTreeMap<Decim
 }
 
 fn venue_as_maps(n: u64) -> (BTreeMap<Decimal, Decimal>, BTreeMap<Decimal, Decimal>) {
-    let (b, a) = venue_book(n);
+    venue_as_maps_of(0, n)
+}
+fn venue_as_maps_of(inst: usize, n: u64) -> (BTreeMap<Decimal, Decimal>, BTreeMap<Decimal, Decimal>) {
+    let (b, a) = venue_book(inst, n);
     let f = |m: BTreeMap<u32, u32>| m.into_iter().map(|(p, a)| (Decimal::from(p), Decimal::from(a))).collect();
     (f(b), f(a))
 }
@@ -202,10 +233,22 @@ pub fn run(ctx: &Ctx) -> Result<InitStats, String> {
     // updates before the confirmation; the subscriber drops those, the sequencer then reports the gap,
     // and the layer flagged a "spurious error" - a false alarm caused by an unrealistic venue script,
     // corrected here.)
-    let scripts: Vec<Script> = [false, true]
+    let mut scripts: Vec<Script> = [false, true]
         .into_iter()
-        .flat_map(|futures| [1u64, 2u64].into_iter().flat_map(move |first| (0..=K).map(move |snapshot| Script { futures, first, pre: 0, snapshot })))
+        .flat_map(|futures| [1u64, 2u64].into_iter().flat_map(move |first| (0..=K).map(move |snapshot| Script { futures, first, pre: 0, snapshot, second: None })))
         .collect();
+    // "across several instruments on one connection": the same deliveries with a second instrument subscribed on
+    // the connection - its own book evolution, its own snapshot point (behind, at, ahead of the socket), its own
+    // start (in order / late); the updates of the two instruments alternate on the socket
+    for futures in [false, true] {
+        for first in [1u64, 2] {
+            for snapshot in 0..=K {
+                for (first2, snapshot2) in [(1u64, 0u64), (1, 2), (1, 4), (2, 0), (2, 1), (2, 3)] {
+                    scripts.push(Script { futures, first, pre: 0, snapshot, second: Some((first2, snapshot2)) });
+                }
+            }
+        }
+    }
 
     let result: Result<(), String> = rt.block_on(async {
         let listener = tokio::net::TcpListener::bind("127.0.0.1:0").await.map_err(|e| format!("bind: {e}"))?;
@@ -214,9 +257,13 @@ pub fn run(ctx: &Ctx) -> Result<InitStats, String> {
         unsafe { std::env::set_var("BARTER_VERIF_BINANCE_WS_URL", format!("ws://127.0.0.1:{port}")) };
 
         for sc in &scripts {
-            *SNAPSHOT.lock().unwrap() = Some(snapshot_json(sc.futures, sc.snapshot));
+            let n_inst = if sc.second.is_some() { 2usize } else { 1 };
+            // per instrument: (id of the first delivered update, snapshot point)
+            let plan: Vec<(u64, u64)> = std::iter::once((sc.first, sc.snapshot)).chain(sc.second).collect();
+            *SNAPSHOT.lock().unwrap() = plan.iter().enumerate().map(|(i, (_, s))| (MARKETS[i].to_string(), snapshot_json_of(sc.futures, i, *s))).collect();
             let r = if sc.futures { "futures" } else { "spot" };
             let sc_server = sc.clone();
+            let plan_server = plan.clone();
             // scripted venue for this one connection
             let server = async {
                 let (stream, _) = listener.accept().await.map_err(|e| format!("accept: {e}"))?;
@@ -224,20 +271,25 @@ pub fn run(ctx: &Ctx) -> Result<InitStats, String> {
                 // the subscribe request
                 let req = ws.next().await.ok_or("no subscribe request")?.map_err(|e| format!("ws read: {e}"))?;
                 let req_text = req.into_text().map_err(|e| e.to_string())?.to_string();
-                if !req_text.contains("btcusdt@depth") {
+                if !req_text.contains("btcusdt@depth") || (plan_server.len() == 2 && !req_text.contains("ethusdt@depth")) {
                     return Err(format!("unexpected subscribe request {req_text}"));
                 }
                 let send = |t: String| tokio_tungstenite::tungstenite::Message::text(t);
                 let last = K;
-                let mut id = sc_server.first;
+                let mut next: Vec<u64> = plan_server.iter().map(|p| p.0).collect();
                 for _ in 0..sc_server.pre {
-                    ws.send(send(update_json(sc_server.futures, id))).await.map_err(|e| e.to_string())?;
-                    id += 1;
+                    ws.send(send(update_json(sc_server.futures, next[0]))).await.map_err(|e| e.to_string())?;
+                    next[0] += 1;
                 }
                 ws.send(send(r#"{"result":null,"id":1}"#.to_string())).await.map_err(|e| e.to_string())?;
-                while id <= last {
-                    ws.send(send(update_json(sc_server.futures, id))).await.map_err(|e| e.to_string())?;
-                    id += 1;
+                // the instruments' updates alternate
+                while next.iter().any(|id| *id <= last) {
+                    for inst in 0..next.len() {
+                        if next[inst] <= last {
+                            ws.send(send(update_json_of(sc_server.futures, inst, next[inst]))).await.map_err(|e| e.to_string())?;
+                            next[inst] += 1;
+                        }
+                    }
                 }
                 let _ = ws.close(None).await;
                 // drain until the peer is gone
@@ -246,9 +298,9 @@ pub fn run(ctx: &Ctx) -> Result<InitStats, String> {
             };
             let client = async {
                 if sc.futures {
-                    client_events!(BinanceFuturesUsd, BinanceFuturesUsdOrderBooksL2Transformer, MarketDataInstrumentKind::Perpetual).await
+                    client_events!(BinanceFuturesUsd, BinanceFuturesUsdOrderBooksL2Transformer, MarketDataInstrumentKind::Perpetual, n_inst).await
                 } else {
-                    client_events!(BinanceSpot, BinanceSpotOrderBooksL2Transformer, MarketDataInstrumentKind::Spot).await
+                    client_events!(BinanceSpot, BinanceSpotOrderBooksL2Transformer, MarketDataInstrumentKind::Spot, n_inst).await
                 }
             };
             let (srv, cli) = tokio::join!(server, client);
@@ -257,29 +309,48 @@ pub fn run(ctx: &Ctx) -> Result<InitStats, String> {
             stats.executions += 1;
             stats.events += events.len() as u64;
 
-            // the consumer
-            let mut book = OrderBook::default();
-            let mut have_snapshot = false;
+            // the consumer: one local book per subscribed instrument
+            let mut books: Vec<OrderBook> = vec![OrderBook::default(); n_inst];
+            let mut have_snapshot = vec![false; n_inst];
+            let mut got_update = vec![false; n_inst];
             let mut told_invalid = false;
             let mut trace = Vec::new();
-            // does the delivery first..=K contain the update that covers the snapshot (or nothing newer at all)?
-            let covering_delivered = if sc.futures { sc.first <= sc.snapshot } else { sc.first <= sc.snapshot + 1 };
-            let case = json!({"engine": "c06-init", "rules": r, "first_update_id": sc.first, "updates_before_subscription_confirmed": sc.pre, "snapshot_last_update_id": sc.snapshot, "updates": K});
+            // does the delivery first..=K of an instrument contain the update that covers its snapshot (or nothing newer
+            // at all)?
+            let covering: Vec<bool> = plan.iter().map(|(first, snap)| if sc.futures { first <= snap } else { *first <= snap + 1 }).collect();
+            let covering_delivered = covering.iter().all(|c| *c);
+            let mut case = json!({"engine": "c06-init", "rules": r, "first_update_id": sc.first, "updates_before_subscription_confirmed": sc.pre, "snapshot_last_update_id": sc.snapshot, "updates": K});
+            if let Some((first2, snapshot2)) = sc.second {
+                case["second_instrument"] = json!({"first_update_id": first2, "snapshot_last_update_id": snapshot2});
+            }
+            let tag = |i: usize| if n_inst == 1 { String::new() } else { format!("{}:", BASES[i]) };
             for ev in events {
                 match ev {
                     Ok(ev) => {
+                        let Some(i) = BASES[..n_inst].iter().position(|b| ev.instrument.base.as_ref() == *b) else {
+                            ctx.violate(
+                                format!("C06/{r}/init/event-for-unsubscribed-instrument"),
+                                format!("script {sc:?}: event names instrument {:?}; events {trace:?}", ev.instrument),
+                                case.clone(),
+                            );
+                            break;
+                        };
                         match &ev.kind {
                             OrderBookEvent::Snapshot(s) => {
-                                trace.push(format!("S{}", s.sequence));
-                                have_snapshot = true;
+                                trace.push(format!("{}S{}", tag(i), s.sequence));
+                                have_snapshot[i] = true;
                             }
-                            OrderBookEvent::Update(u) => trace.push(format!("U{}", u.sequence)),
+                            OrderBookEvent::Update(u) => {
+                                trace.push(format!("{}U{}", tag(i), u.sequence));
+                                got_update[i] = true;
+                            }
                         }
-                        book.update(ev.kind.clone());
-                        if have_snapshot && !told_invalid {
-                            let seq = book.sequence;
-                            if seq > K || book_as_maps(&book) != venue_as_maps(seq) {
-                                let order = if trace.iter().position(|t| t.starts_with('S')).is_some_and(|p| p > 0) {
+                        books[i].update(ev.kind.clone());
+                        if have_snapshot[i] && !told_invalid {
+                            let seq = books[i].sequence;
+                            if seq > K || book_as_maps(&books[i]) != venue_as_maps_of(i, seq) {
+                                let own: Vec<&String> = trace.iter().filter(|t| n_inst == 1 || t.starts_with(&tag(i))).collect();
+                                let order = if own.iter().position(|t| t.trim_start_matches(&tag(i)).starts_with('S')).is_some_and(|p| p > 0) {
                                     "update-emitted-before-snapshot"
                                 } else {
                                     "after-snapshot"
@@ -287,9 +358,10 @@ pub fn run(ctx: &Ctx) -> Result<InitStats, String> {
                                 ctx.violate(
                                     format!("C06/{r}/init/book-differs-from-venue-book-at-reported-sequence/{order}"),
                                     format!(
-                                        "script {sc:?}: events {trace:?}; local book at sequence {seq} = {:?}, venue book at {seq} = {:?}",
-                                        book_as_maps(&book),
-                                        venue_as_maps(seq.min(K))
+                                        "script {sc:?}: events {trace:?}; local book of {} at sequence {seq} = {:?}, venue book at {seq} = {:?}",
+                                        MARKETS[i],
+                                        book_as_maps(&books[i]),
+                                        venue_as_maps_of(i, seq.min(K))
                                     ),
                                     case.clone(),
                                 );
@@ -303,10 +375,11 @@ pub fn run(ctx: &Ctx) -> Result<InitStats, String> {
                         if covering_delivered {
                             ctx.violate(
                                 format!("C06/{r}/init/in-order-delivery-errors"),
-                                format!("script {sc:?}: gap-free in-order delivery containing the update that covers the snapshot produced a sequence error; events {trace:?}"),
+                                format!("script {sc:?}: gap-free in-order delivery containing the update that covers the snapshot (for every subscribed instrument) produced a sequence error; events {trace:?}"),
                                 case.clone(),
                             );
                         }
+                        // (the sequence error is terminal: the consumer's connection ends here)
                         break;
                     }
                     Err(other) => {
@@ -315,22 +388,31 @@ pub fn run(ctx: &Ctx) -> Result<InitStats, String> {
                     }
                 }
             }
-            if have_snapshot && !covering_delivered && !told_invalid {
+            let any_snapshot = have_snapshot.iter().any(|h| *h);
+            if any_snapshot && !covering_delivered && !told_invalid {
                 ctx.violate(
                     format!("C06/{r}/init/break-at-chain-start-not-surfaced"),
                     format!("script {sc:?}: the delivery starts beyond the update that covers the snapshot, yet no sequence error was yielded; events {trace:?}"),
                     case.clone(),
                 );
             }
-            if !have_snapshot {
+            if !any_snapshot {
                 ctx.violate(
                     format!("C06/{r}/init/snapshot-never-emitted"),
                     format!("script {sc:?}: events {trace:?}"),
                     case.clone(),
                 );
+            } else if let Some(i) = (0..n_inst).find(|i| !have_snapshot[*i] && (got_update[*i] || !told_invalid)) {
+                // one of several instruments never got its snapshot, yet its updates were yielded / the connection
+                // went on: the consumer has nothing to apply them to and has not been told so
+                ctx.violate(
+                    format!("C06/{r}/init/snapshot-never-emitted/one-of-several-instruments"),
+                    format!("script {sc:?}: no snapshot for {} was yielded; events {trace:?}", MARKETS[i]),
+                    case.clone(),
+                );
             }
             outcomes.insert(format!("{r}:{}", trace.join(",")));
-            if stats.samples.len() < 4 {
+            if stats.samples.len() < 4 || (sc.second.is_some() && stats.samples.len() < 6) {
                 stats.samples.push(json!({"script": case, "events": trace}));
             }
         }
@@ -504,17 +586,47 @@ pub struct ReinitStats {
     pub trace: Vec<String>,
 }
 
+/// One re-initialisation script: connection 1 = snapshot at `s1` + updates `u1` (with a gap), every later connection
+/// = snapshot at `s2` + updates `u2` (in order, ending at K).
+#[derive(Debug, Clone, Copy)]
+struct ReinitScript {
+    s1: u64,
+    u1: &'static [u64],
+    s2: u64,
+    u2: &'static [u64],
+}
+/// Script 0 is the one of the first rounds. Script 1 (second hardening round): the consumer's book holds a level
+/// (bid 99 from update 2) that the snapshot of the new initialisation no longer contains (change 3 deleted it) - the
+/// re-initialisation must REPLACE the invalid book, not merge into it; its first update (3) is stale, 4 covers.
+const REINIT_SCRIPTS: [ReinitScript; 2] = [
+    ReinitScript { s1: 0, u1: &[1, 3, 4], s2: 2, u2: &[2, 3, 4] },
+    ReinitScript { s1: 0, u1: &[1, 2, 4], s2: 3, u2: &[3, 4] },
+];
+
 pub fn run_reinit(ctx: &Ctx) -> Result<ReinitStats, String> {
+    let mut total = ReinitStats { executions: 0, connections: 0, snapshot_fetches: 0, trace: vec![] };
+    for (i, script) in REINIT_SCRIPTS.iter().enumerate() {
+        let st = run_reinit_script(ctx, script)?;
+        total.executions += st.executions;
+        total.connections += st.connections;
+        total.snapshot_fetches += st.snapshot_fetches;
+        total.trace.push(format!("script {i}: {}", st.trace.join(",")));
+    }
+    Ok(total)
+}
+
+fn run_reinit_script(ctx: &Ctx, script: &ReinitScript) -> Result<ReinitStats, String> {
+    let script = *script;
     let rt = tokio::runtime::Builder::new_current_thread().enable_all().build().map_err(|e| e.to_string())?;
     rt.block_on(async {
         let listener = tokio::net::TcpListener::bind("127.0.0.1:0").await.map_err(|e| format!("bind: {e}"))?;
         let port = listener.local_addr().map_err(|e| e.to_string())?.port();
         // SAFETY: single writer; no other thread reads the environment at this point.
         unsafe { std::env::set_var("BARTER_VERIF_BINANCE_WS_URL", format!("ws://127.0.0.1:{port}")) };
-        *SNAPSHOT_QUEUE.lock().unwrap() = VecDeque::from([snapshot_json(false, 0), snapshot_json(false, 2)]);
+        *SNAPSHOT_QUEUE.lock().unwrap() = VecDeque::from([snapshot_json(false, script.s1), snapshot_json(false, script.s2)]);
         SNAPSHOT_FETCHES.store(0, std::sync::atomic::Ordering::SeqCst);
         let connections = std::sync::Arc::new(std::sync::atomic::AtomicU64::new(0));
-        let case = json!({"engine": "c06-init", "layer": "re-initialisation", "connection_1": {"snapshot": 0, "updates": [1, 3, 4]}, "connection_2": {"snapshot": 2, "updates": [2, 3, 4]}});
+        let case = json!({"engine": "c06-init", "layer": "re-initialisation", "connection_1": {"snapshot": script.s1, "updates": script.u1}, "connection_2": {"snapshot": script.s2, "updates": script.u2}});
 
         // scripted venue: serves connection after connection until aborted
         let conn_count = connections.clone();
@@ -522,7 +634,7 @@ pub fn run_reinit(ctx: &Ctx) -> Result<ReinitStats, String> {
             // first connection: the gap; every later connection: the in-order delivery
             loop {
                 let (stream, _) = listener.accept().await.map_err(|e| format!("accept: {e}"))?;
-                let updates: &[u64] = if conn_count.fetch_add(1, std::sync::atomic::Ordering::SeqCst) == 0 { &[1, 3, 4] } else { &[2, 3, 4] };
+                let updates: &[u64] = if conn_count.fetch_add(1, std::sync::atomic::Ordering::SeqCst) == 0 { script.u1 } else { script.u2 };
                 let mut ws = tokio_tungstenite::accept_async(stream).await.map_err(|e| format!("ws accept: {e}"))?;
                 let req = ws.next().await.ok_or("no subscribe request")?.map_err(|e| format!("ws read: {e}"))?;
                 let req_text = req.into_text().map_err(|e| e.to_string())?.to_string();
